@@ -1,7 +1,7 @@
 (* C03 -- Every declared task constraint holds in every returned schedule.  Statements only. *)
 From Coq Require Import ZArith List Bool.
 From Coq Require String.
-From PS.model Require Import Smt Enc Prog.
+From PS.model Require Import Smt Enc Ind Prog.
 From PS.spec Require Import Spec.
 From PS.proofs Require Import Base Cons_proof Res_proof Wf_proof C06_proof Examples.
 Import ListNotations.
